@@ -20,6 +20,16 @@ CHECKS = {
         design="DESIGN.md section 4 C11"),
 }
 
+CHECKS["C12"] = dict(
+    technique="exhaustive enumeration of expression trees (polynomial fragment by normal forms, extended fragment by exact grid evaluation) + Hypothesis-random trees; signature-bucket soundness oracle, metamorphic commutation/re-association relation, single-operator mutation discrimination",
+    text=("Generated-input search: all trees up to 7 (quick) / 8 (thorough) nodes of the polynomial fragment and up to 5/6 nodes of "
+          "the extended fragment, plus random trees with up to 10 leaves over the full operator set. Every signature bucket is "
+          "checked for value agreement (own polynomial normal form / exact integer grid), every tree against its mirrored, "
+          "left- and right-associated and randomly permuted forms, and against every single-operator mutation. Exhaustive to the "
+          "stated size, sampled beyond."),
+    note="Trusts Python int arithmetic and the harness' 30-line polynomial normal form; value agreement outside the polynomial fragment is decided on the grid {-2..2}^3 only.",
+    design="DESIGN.md section 4 C12")
+
 NOT_YET = {}
 
 
